@@ -59,7 +59,8 @@ def build(run):
     rules.diagnostics(tc)
     rules.aborts(tc)
     # the catch-all arm goes through try_eq on clones (non-numeric values): unspecified here
-    tc.erase_arms('R2', lambda pat: pred(pat) or pat.strip().startswith('(_s, _o)'))
+    # (the arm that binds both operands to plain identifiers, whatever they are called)
+    tc.erase_arms('R2', lambda pat: pred(pat) or re.match(r'^\(\s*[a-z_]\w*\s*,\s*[a-z_]\w*\s*\)\s*$', pat.strip()) is not None)
     unit.add(tc)
     unit.raw("}\n")
     hs = []
